@@ -302,12 +302,7 @@ Section Ops.
         unfold block_ok. rewrite Htxs. apply Forall_app. split.
         * rewrite Forall_forall in *. intros t Ht. apply Hp. apply Hincl. exact Ht.
         * constructor; [apply reward_tx_ok | constructor].
-    - destruct (validate_refused_cases _ _ _ _ _ _ _ _ _ _ _ _ Ev) as [[-> _]|(_ & _ & _ & ->)];
-        [exact Hn|].
-      (* AddBlock refused the tick: the pool has been re-ordered, its elements are the same *)
-      destruct Hn as [Hp Hc]. split; cbn [n_pool n_c]; [|exact Hc].
-      destruct (n_pool n) as [l|]; [|constructor]. cbn [elems] in Hp |- *.
-      rewrite Forall_forall in *. intros t Ht. apply Hp. exact (permute_incl _ _ _ Ht).
+    - rewrite (validate_refused_id _ _ _ _ _ _ _ _ _ _ _ _ Ev). exact Hn.
   Qed.
 
   (* ---- verification of a neighbor's answer ---- *)
